@@ -229,7 +229,7 @@ func propC01(c *Ctx) {
 
 	// ---- R1.5 ---------------------------------------------------------
 	c.Rule("R1.5", "partition arithmetic of load, on stride forms: first partition at start, partition size not a floor quotient, size = min(stride, limit - offset) with the offset and stride of the partition start", 3)
-	propC01Partition(c, m)
+	propC01Partition(c, m, "R1.5")
 
 	// ---- R1.7 ---------------------------------------------------------
 	c.Rule("R1.7", "the chunks of the loaded slice handed to the destinations start at element 0 and do not advance by a floor quotient", 1)
@@ -241,7 +241,7 @@ func propC01(c *Ctx) {
 // and a running offset `off += part` are the same thing.  The rule reports a
 // violation only where it understands the arithmetic and finds it wrong; a
 // shape it cannot read is recorded as not decided.
-func propC01Partition(c *Ctx, m *convergeModel) {
+func propC01Partition(c *Ctx, m *convergeModel, rule string) {
 	ld := m.load
 	w := c.W
 	fBatch, fConc := w.Field("shovel", "Task", "batchSize"), w.Field("shovel", "Task", "concurrency")
@@ -264,7 +264,7 @@ func propC01Partition(c *Ctx, m *convergeModel) {
 		}
 	})
 	if spawn == nil {
-		c.Violation("R1.5", "load/spawn", ld.Pos(), "no errgroup closure found in load")
+		c.Violation(rule, "load/spawn", ld.Pos(), "no errgroup closure found in load")
 		return
 	}
 	var get ssa.CallInstruction
@@ -275,7 +275,7 @@ func propC01Partition(c *Ctx, m *convergeModel) {
 		}
 	}
 	if get == nil {
-		c.Violation("R1.5", "load$closure/Get", spawn.Pos(), "the partition closure does not call Source.Get")
+		c.Violation(rule, "load$closure/Get", spawn.Pos(), "the partition closure does not call Source.Get")
 		return
 	}
 	var pStart, pLimit *ssa.Parameter
@@ -297,9 +297,9 @@ func propC01Partition(c *Ctx, m *convergeModel) {
 	// (1) first partition starts at start
 	switch {
 	case !mok:
-		c.OK("R1.5", "load/first-partition-at-start", instrPos(get), "shape of the partition start not recognised: not decided")
+		c.OK(rule, "load/first-partition-at-start", instrPos(get), "shape of the partition start not recognised: not decided")
 	default:
-		c.Check("R1.5", "load/first-partition-at-start", instrPos(get), linEq(mi, aff.Of(pStart)),
+		c.Check(rule, "load/first-partition-at-start", instrPos(get), linEq(mi, aff.Of(pStart)),
 			fmt.Sprintf("the first partition starts at [%s]; it must start at start", mi))
 	}
 	// (2) the stride is not a floor quotient of batch size by concurrency
@@ -307,7 +307,7 @@ func propC01Partition(c *Ctx, m *convergeModel) {
 	if mok && floorQuotientStride(aff, ms, fBatch, fConc) {
 		strideOK, strideDetail = false, "the partition size is the floor quotient batchSize / concurrency: batch_size < concurrency yields 0 (nothing is loaded) and non-divisible pairs drop the tail of the range"
 	}
-	c.Check("R1.5", "load/partition-size-not-floor-quotient", ld.Pos(), strideOK, strideDetail)
+	c.Check(rule, "load/partition-size-not-floor-quotient", ld.Pos(), strideOK, strideDetail)
 	// (3) the size of a partition is min(stride, limit - offset) for the same offset
 	nOK, nDetail := true, "shape of the partition size not recognised: not decided"
 	if call, ok := aff.resolve(nArg).(*ssa.Call); ok && mok && calleeName(call) == "builtin min" && len(call.Call.Args) == 2 {
@@ -325,7 +325,116 @@ func propC01Partition(c *Ctx, m *convergeModel) {
 			}
 		}
 	}
-	c.Check("R1.5", "load/partition-size-clipped-to-range", instrPos(get), nOK, nDetail)
+	// the same clip written with an if: every value the size can be is what is left of the range, or the
+	// stride on an edge behind the comparison `stride <= rest` (found by a seeded change whose clip was
+	// skipped when the partition started exactly at the end of the range)
+	// the values the size can take, each with the control-flow edge it arrives over: from a phi, or
+	// from the stores that reach the spawn when the size is a captured variable (`n := part; if … { n = rest }`)
+	type sizeLeaf struct {
+		val      ssa.Value
+		pred, to *ssa.BasicBlock
+	}
+	var leavesOfSize []sizeLeaf
+	var sizeFn *ssa.Function
+	var sizeSelf ssa.Value
+	if ph, isPhi := aff.resolve(nArg).(*ssa.Phi); isPhi {
+		sizeFn, sizeSelf = ph.Parent(), ph
+		for _, lf := range phiLeaves(ph) {
+			l := sizeLeaf{val: lf.Val}
+			if lf.Phi != nil && lf.Pred != nil {
+				l.pred, l.to = lf.Pred, lf.Phi.Block()
+			}
+			leavesOfSize = append(leavesOfSize, l)
+		}
+	} else if u, isU := stripNum(nArg).(*ssa.UnOp); isU && u.Op == token.MUL {
+		if fv, isFV := u.X.(*ssa.FreeVar); isFV {
+			if al, isAl := (&apWalker{}).freeVarBinding(fv).(*ssa.Alloc); isAl && cellValue(al) == nil {
+				// where the closure is made
+				var mc ssa.Instruction
+				allInstrs(al.Parent(), func(in ssa.Instruction) {
+					if m, ok := in.(*ssa.MakeClosure); ok && m.Fn == ssa.Value(spawn) {
+						mc = m
+					}
+				})
+				if mc != nil {
+					sizeFn = al.Parent()
+					mf := newMemField(al, -1)
+					var walk func(d *memDef, pred, to *ssa.BasicBlock, depth int)
+					walk = func(d *memDef, pred, to *ssa.BasicBlock, depth int) {
+						if d == nil || depth > 6 {
+							return
+						}
+						switch {
+						case d.store != nil:
+							leavesOfSize = append(leavesOfSize, sizeLeaf{d.store.(*ssa.Store).Val, pred, to})
+						case d.join != nil:
+							for i, pd := range d.preds {
+								walk(pd, d.join.Preds[i], d.join, depth+1)
+							}
+						}
+					}
+					walk(mf.At(mc), nil, nil, 0)
+				}
+			}
+		}
+	}
+	if len(leavesOfSize) > 1 && mok {
+		g := sizeFn
+		wantRestI := aff.Of(pLimit).sub(mi.sub(aff.Of(pStart)))
+		isRest := func(v ssa.Value) bool {
+			ri, rs, rok := aff.strideOf(v)
+			return rok && linEq(ri, wantRestI) && linEq(rs, ms.scale(-1))
+		}
+		isStride := func(v ssa.Value) bool {
+			si, ss, sok := aff.strideOf(v)
+			return sok && linIsZero(ss) && linEq(si, ms)
+		}
+		// edges on which stride <= rest is known
+		var le []Edge
+		allInstrs(g, func(in ssa.Instruction) {
+			b, ok := in.(*ssa.BinOp)
+			if !ok {
+				return
+			}
+			isN := func(v ssa.Value) bool {
+				if isStride(v) || (sizeSelf != nil && stripNum(v) == sizeSelf) {
+					return true
+				}
+				// a read of the size variable itself
+				if lu, ok := stripNum(v).(*ssa.UnOp); ok && lu.Op == token.MUL {
+					if nu, ok := stripNum(nArg).(*ssa.UnOp); ok {
+						if fv, ok := nu.X.(*ssa.FreeVar); ok {
+							return lu.X == (&apWalker{}).freeVarBinding(fv)
+						}
+					}
+				}
+				return false
+			}
+			t, f := boolEdges(b)
+			switch {
+			case b.Op == token.LSS && isRest(b.X) && isN(b.Y), b.Op == token.GTR && isN(b.X) && isRest(b.Y):
+				le = append(le, f...)
+			case b.Op == token.GEQ && isRest(b.X) && isN(b.Y), b.Op == token.LEQ && isN(b.X) && isRest(b.Y):
+				le = append(le, t...)
+			}
+		})
+		verdict, detail := true, "partition size: what is left of the range, or the stride behind `stride <= rest`"
+		for _, lf := range leavesOfSize {
+			switch {
+			case isRest(lf.val):
+			case isStride(lf.val):
+				if lf.pred == nil || len(le) == 0 || !edgeGuarded(g, lf.pred, lf.to, le) {
+					verdict, detail = false, "the full stride reaches Source.Get on a path on which it was not compared with what is left of the range (a partition that starts at the end of the range fetches blocks beyond it)"
+				}
+			default:
+				if verdict {
+					detail = "a value the partition size can take is not recognised: not decided"
+				}
+			}
+		}
+		nOK, nDetail = verdict, detail
+	}
+	c.Check(rule, "load/partition-size-clipped-to-range", instrPos(get), nOK, nDetail)
 }
 
 // floorQuotientStride: the stride is batchSize / concurrency rounded down
@@ -419,6 +528,73 @@ func propC01InsertTiling(c *Ctx, m *convergeModel) {
 				c.Violation("R1.7", key, instrPos(ci), "chunks advance by the floor quotient batchSize / concurrency: for non-divisible pairs the tail of every full step is handed to no destination while the position still advances to the last loaded block")
 			default:
 				c.OK("R1.7", key, instrPos(ci), fmt.Sprintf("first chunk at 0, stride [%s]", ls))
+			}
+			// the chunking loop ends only when the chunks have covered the slice: every exit of the loop is the
+			// edge on which `chunk start < len(blocks)` failed.  A loop that can also stop after a fixed number
+			// of chunks (one per destination) leaves the tail of the step unwritten while the position moves on
+			// (found by a seeded change that split the step across len(t.dests) chunks of len(blocks)/len(t.dests)).
+			if ok {
+				// the spawn site in insert's own loop
+				var at ssa.Instruction = ci
+				for at.Parent() != ins && at.Parent() != nil {
+					var mc ssa.Instruction
+					allInstrs(at.Parent().Parent(), func(in ssa.Instruction) {
+						if m, isMC := in.(*ssa.MakeClosure); isMC && m.Fn == ssa.Value(at.Parent()) {
+							mc = m
+						}
+					})
+					if mc == nil {
+						break
+					}
+					at = mc
+				}
+				if h := loopHeaderOf(at); h != nil && at.Parent() == ins {
+					loop := naturalLoop(h)
+					low := aff.Of(sl.Low)
+					covered := func(e Edge) bool {
+						iff, isIf := terminator(e.From).(*ssa.If)
+						if !isIf {
+							return false
+						}
+						b, isB := iff.Cond.(*ssa.BinOp)
+						if !isB {
+							return false
+						}
+						isFalseEdge := e.From.Succs[1] == e.To
+						isLen := func(v ssa.Value) bool {
+							arg, okl := lenArg(v)
+							return okl && (sameVar(aff.resolve(arg), blocks) || aff.resolve(arg) == ssa.Value(blocks))
+						}
+						switch {
+						case b.Op == token.LSS && isFalseEdge && isLen(b.Y):
+							return linEq(aff.Of(b.X), low)
+						case b.Op == token.GEQ && !isFalseEdge && isLen(b.Y):
+							return linEq(aff.Of(b.X), low)
+						case b.Op == token.GTR && isFalseEdge && isLen(b.X):
+							return linEq(aff.Of(b.Y), low)
+						case b.Op == token.LEQ && !isFalseEdge && isLen(b.X):
+							return linEq(aff.Of(b.Y), low)
+						}
+						return false
+					}
+					bad := ""
+					nExit := 0
+					for blk := range loop {
+						for _, sc := range blk.Succs {
+							if loop[sc] {
+								continue
+							}
+							nExit++
+							if !covered(Edge{blk, sc}) {
+								bad = w.Pos(instrPos(terminator(blk)))
+							}
+						}
+					}
+					if nExit > 0 {
+						c.Check("R1.7", key+"/loop-ends-only-when-covered", instrPos(ci), bad == "",
+							"the chunking loop is left only when the next chunk would start at or beyond len(blocks); other exit at "+bad)
+					}
+				}
 			}
 		}
 	})
